@@ -577,6 +577,15 @@ func (n *Node) WriteFrameExcept(exceptChannel *Channel, fr frame.Frame) error {
 }
 
 func (n *Node) pushEvent(evt Event) {
+	// once the node is terminating, no event is delivered anymore.
+	// this prevents an event from being delivered after a previous one
+	// of the same channel has been dropped.
+	select {
+	case <-n.terminate:
+		return
+	default:
+	}
+
 	select {
 	case n.chEvent <- evt:
 	case <-n.terminate:
